@@ -92,6 +92,7 @@ def c17(A, ctx, tier):
     history.r_hist(A, ctx, dict(exempt={"LBFGS"}, floor=12))
     control.r_retstop(A, ctx, dict(floor=6))
     control.r_gradpoint(A, ctx, dict(floor=12))
+    control.r_lbfgs(A, ctx, {})
     history.r_niter(A, ctx, dict(floor=3))
     control.r_zero(A, ctx, dict(exempt={}, floor=7), rule="R-ZERO-BOUND", want="bound")
     return dict(explanation="diagnostics: one history entry per completed outer "
@@ -112,6 +113,7 @@ def c19(A, ctx, tier):
     misc.r_abseps(A, ctx, dict(floor=300))
     kernels.r_zeroblock(A, ctx, {})
     degenerate.r_nansafe(A, ctx, dict(floor=25))
+    cox.r_istep_multitask(A, ctx, {})
     kernels.r_fixpoint(A, ctx, dict(floor=5), rule="R-FIXPOINT-ZEROGROUP")
     pairing.r_pair_eq(A, ctx, dict(only="zero task", floor=2), rule="R-PAIR-ZEROTASK")
     blockpen.r_proxfoc_block(A, ctx, dict(floor=12), rule="R-PROX-ZEROWEIGHT-BLOCK", parts=("nonneg",))
